@@ -14,7 +14,7 @@ with the recovery middleware in front of it (chain `[recovery, timeout, handler]
 
 A schedule is a list of tokens: which thread moves (for `R` at its `select`: which ready branch Go
 picks), or an environment event (the deadline timer fires, the parent context is cancelled). A
-blocked thread's token is a no-op. The synchronisation acts (`awaitCtx`, `awaitT`, `signalH`,
+blocked thread's token is a no-op. The synchronisation acts (`awaitCtx`, `awaitE`, `awaitT`, `signalH`,
 `awaitRet`) are how the harness forces an order with channels — they are ordinary things a handler
 can do. Core Lean only.
 -/
@@ -30,6 +30,8 @@ inductive HAct where
   | firePc
   /-- `<-c.Request.Context().Done()` -/
   | awaitCtx
+  /-- wait until the timeout handler has been entered (thread R is past its `select`) -/
+  | awaitE
   /-- wait until the timeout handler has written its response -/
   | awaitT
   /-- let a timeout handler that waits for the handler proceed -/
@@ -89,6 +91,8 @@ structure St where
   ctx : Ctx := .live
   rpc : RPc := .select
   timedOut : Bool := false
+  /-- the timeout handler has been entered (what `awaitE` waits for) -/
+  tEntered : Bool := false
   /-- the timeout handler has written (what `awaitT` waits for) -/
   tWritten : Bool := false
   /-- H let the timeout handler go (or has finished) -/
@@ -121,6 +125,7 @@ def stepH (s : St) : St :=
   | .fireDl :: r => { s with hprog := r, ctx := if s.ctx = .live then .deadline else s.ctx }
   | .firePc :: r => { s with hprog := r, ctx := if s.ctx = .live then .cancelled else s.ctx }
   | .awaitCtx :: r => if s.ctx = .live then s else { s with hprog := r }
+  | .awaitE :: r => if s.tEntered then { s with hprog := r } else s
   | .awaitT :: r => if s.tWritten then { s with hprog := r } else s
   | .signalH :: r => { s with hprog := r, hGo := true }
   | .awaitRet :: r => if s.rpc = .returned then { s with hprog := r } else s
@@ -131,12 +136,13 @@ def stepH (s : St) : St :=
 def stepR (waitH : Bool) (preferDone : Bool) (s : St) : St :=
   match s.rpc with
   | .select =>
-    let ctxReady := s.ctx != .live
-    if s.hDone && (preferDone || !ctxReady) then finishR s
-    else if ctxReady then
-      if s.ctx = .deadline then { s with timedOut := true, rpc := .thandler }
-      else { s with rpc := .returned, releasedEarly := !s.hDone }
-    else s
+    -- `done` is ready and Go picks it (always when `ctx.Done()` is not ready)
+    if s.hDone && (preferDone || s.ctx == .live) then finishR s
+    -- nothing is ready: blocked
+    else if s.ctx = .live then s
+    -- `ctx.Done()`: errors.Is(ctx.Err(), context.DeadlineExceeded)?
+    else if s.ctx = .deadline then { s with timedOut := true, tEntered := true, rpc := .thandler }
+    else { s with rpc := .returned, releasedEarly := !s.hDone }
   | .thandler =>
     if waitH && !s.hGo then s
     else ({ s with tWritten := true, rpc := .waitDone }).write .t408
